@@ -21,8 +21,9 @@ class TrajRec(Model):
     """A trajectory as an opaque record: identity tid, schema hash, optional flight id."""
     type_names = ('Trajectory',)
 
-    def __init__(self, tid, schema=0, fid=None, missing_required=False, label=''):
+    def __init__(self, tid, schema=0, fid=None, missing_required=False, label='', fieldsets=None):
         self.tid, self.schema, self.fid, self.missing_required, self.label = tid, schema, fid, missing_required, label
+        self.fieldsets = set(fieldsets) if fieldsets is not None else {'base'}
         self.extra = {}
 
     def py_getattr(self, I, name):
@@ -31,7 +32,7 @@ class TrajRec(Model):
         if name == 'nbytes':
             return 1000
         if name == '_fieldsets':
-            return {'base'}
+            return set(self.fieldsets)
         if name == 'species':
             return []
         if name in self.extra:
@@ -462,12 +463,15 @@ def install_cache_model(I):
             if I_.truth(I_.compare('==', k, key)):
                 es[i] = (k, val)
                 return None
+        # a value larger than the whole cache is refused by cachetools (ValueError 'value too large') before anything is evicted
+        if I_.hooks.get('cache_smaller_than_a_trajectory'):
+            I_.raise_('ValueError', 'value too large')
         # a new key: the cache may have to evict (0, 1 or 2 other entries here), each through the
         # class's own popitem -- *before* the new item is stored
-        for _ in range(2):
+        for nth in range(2):
             if not entries(obj):
                 break
-            if I_.ctx.choose(2, lambda i: True) == 0:
+            if not (nth == 0 and I_.hooks.get('cache_full')) and I_.ctx.choose(2, lambda i: True) == 0:
                 break
             I_.call(I_.getattr(obj, 'popitem'), [], {})
         entries(obj).append((key, val))
@@ -543,6 +547,7 @@ class GhostOS:
         self.json = {}          # path -> data
         self.step = 0
         self.fault_at = fault_at
+        self.fault_kind = 'OSError'      # or an interruption that is not an Exception (KeyboardInterrupt)
         self.log = []
         self.on_tick = []
 
@@ -552,7 +557,7 @@ class GhostOS:
         self.step += 1
         self.log.append(what)
         if self.fault_at is not None and self.step == self.fault_at:
-            self.I.raise_('OSError', f'injected failure at step {self.step}: {what}')
+            self.I.raise_(self.fault_kind, f'injected failure at step {self.step}: {what}')
 
     def exists(self, p):
         return p in self.dirs or p in self.json or p in self.I.hooks['nc_files']
